@@ -69,7 +69,7 @@ var ownDiscipline = map[string]string{
 	// has been closed is kept in closed
 	"pendingBody.stream": "init-only", "pendingBody.closed": "atomic",
 	// Ctx
-	"Ctx.Err": "init-only", "Ctx.streamID": "atomic", "Ctx.conn": "atomic",
+	"Ctx.Err": "init-only", "Ctx.streamID": "atomic", "Ctx.conn": "atomic", "Ctx.headersDone": "mutex:Ctx.lck",
 	"Ctx.done":     "mutex:Ctx.lck",
 	"Ctx.resolved": "mutex:Ctx.resLck", "Ctx.finished": "mutex:Ctx.resLck",
 	"Ctx.timer": "owner:caller", "Ctx.armed": "owner:caller",
